@@ -122,6 +122,15 @@ pub fn main(args: &[String]) -> i32 {
                     };
                     match e {
                         Some(Expression::Number(n)) => {
+                            // end to end: the rule that rewrites Luau spellings, under each generator
+                            let mut conv = Vec::new();
+                            for g in ["retain_lines", "dense", "readable"] {
+                                match crate::text::run_text(&code, "['convert_luau_number']", &format!("'{}'", g)) {
+                                    Ok(t) => conv.push(json!({"gen": g, "out": latin1(t.as_bytes()), "status": "ok"})),
+                                    Err(e) => conv.push(json!({"gen": g, "out": "", "status": e.chars().take(120).collect::<String>()})),
+                                }
+                            }
+                            o["conv"] = json!(conv);
                             o["node"] = json!(match &n {
                                 NumberExpression::Decimal(_) => "decimal",
                                 NumberExpression::Hex(_) => "hex",
